@@ -200,6 +200,7 @@ type FnCtx struct {
 	ghostDefs    []string
 	usedAxioms   []string
 	inTrial      map[ast.Node]bool
+	curRecvExpr  ast.Expr
 	inferredNotes []string
 }
 
@@ -241,6 +242,14 @@ func (c *FnCtx) addFact(f string) {
 func (c *FnCtx) sortOf(t types.Type) Sort {
 	if t == nil {
 		return SInt
+	}
+	if n, ok := types.Unalias(t).(*types.Named); ok && len(c.V.specs.Abstract) > 0 {
+		if so, ok := c.V.specs.Abstract[typeShortName(n)]; ok {
+			if so == SStr || isSeq(so) {
+				c.declSeq(so)
+			}
+			return so
+		}
 	}
 	switch u := t.Underlying().(type) {
 	case *types.Basic:
@@ -619,6 +628,20 @@ func (c *FnCtx) zeroVal(t types.Type) *Val {
 		}
 	case strings.HasPrefix(string(s), "(_ FloatingPoint"):
 		v.T = fmt.Sprintf("((_ to_fp %s) RNE 0.0)", fpDims(s))
+	case isArr(s):
+		_, vs := arrParts(s)
+		z := "0"
+		switch vs {
+		case SBool:
+			z = "false"
+		case SReal:
+			z = "0.0"
+		}
+		if vs != SInt && vs != SBool && vs != SReal {
+			v.T = c.fresh("zero", s)
+		} else {
+			v.T = fmt.Sprintf("((as const %s) %s)", s, z)
+		}
 	default:
 		v.T = c.fresh("zero", s)
 	}
